@@ -6,6 +6,59 @@ KNOWN = {1: "multiline_literal_cut_by_strip_comments", 2: "sqlc_arg_spelling_cha
          4: "named_parameters_numbered_in_traversal_order"}
 
 
+def end_to_end(rep, accepted, tier):
+    """The judge above looks at the compiler's result (harness op compile).  What the user gets is the constant in the
+    emitted Go file, produced by cmd.Generate under some configuration: it must carry exactly that SQL, whatever else the
+    configuration contains (a Kotlin target for the same engine listed before or next to the Go target, version 1 or 2)."""
+    import json as _json
+    pick = accepted[:150] if tier == "quick" else accepted[:3000]
+    v1 = _json.dumps({"version": "1", "packages": [{"path": "db", "engine": "postgresql", "schema": "schema.sql", "queries": "query.sql"}]})
+    kt_first = _json.dumps({"version": "2", "sql": [
+        {"schema": "schema.sql", "queries": "query.sql", "engine": "postgresql", "gen": {"kotlin": {"package": "kt", "out": "kt"}}},
+        {"schema": "schema.sql", "queries": "query.sql", "engine": "postgresql", "gen": {"go": {"package": "db", "out": "db"}}}]})
+    same_block = _json.dumps({"version": "2", "sql": [
+        {"schema": "schema.sql", "queries": "query.sql", "engine": "postgresql",
+         "gen": {"go": {"package": "db", "out": "db"}, "kotlin": {"package": "kt", "out": "kt"}}}]})
+    go_then_kt = _json.dumps({"version": "2", "sql": [
+        {"schema": "schema.sql", "queries": "query.sql", "engine": "postgresql", "gen": {"go": {"package": "db", "out": "db"}}},
+        {"schema": "schema.sql", "queries": "query.sql", "engine": "postgresql", "gen": {"kotlin": {"package": "kt", "out": "kt"}}}]})
+    variants = [("v1-go", v1), ("kotlin-block-then-go-block", kt_first), ("go-and-kotlin-one-block", same_block), ("go-block-then-kotlin-block", go_then_kt)]
+    jobs, meta = [], []
+    for c, r in pick:
+        for vn, cfg in variants:
+            jobs.append({"op": "generate", "summary": True, "nofiles": True,
+                         "files": {"sqlc.json": cfg, "schema.sql": c["schema"], "query.sql": c["queries"]}})
+            meta.append((c, r, vn))
+    res = run_harness(jobs)
+    for (c, r, vn), g in zip(meta, res):
+        replay = {"schema": c["schema"], "queries": c["queries"], "configuration": vn}
+        if "panic" in g:
+            rep.violation("sqlc panics under configuration %s: %s" % (vn, g["panic"][:100]), replay)
+            continue
+        if not g.get("ok"):
+            # the Go target alone must compile what the compiler accepted (the generator may still refuse names that are
+            # not Go identifiers, with a diagnostic: C01's domain); a Kotlin target may refuse more
+            if vn == "v1-go" and "error generating code" not in (g.get("stderr") or ""):
+                rep.violation("cmd.Generate rejects a query file the compiler accepts: %s" % (g.get("stderr") or "")[:160], replay)
+            else:
+                rep.count("e2e:%s:not-generated" % vn)
+            continue
+        rep.count("e2e:%s" % vn)
+        consts = {}
+        for f, sm in g["summary"].items():
+            if f.startswith("db/") and f.endswith(".sql.go"):
+                for k in sm.get("consts", []):
+                    consts[k["name"]] = k["value"]
+        for q in r.get("queries") or []:
+            name = q["name"]
+            cname = name[:1].lower() + name[1:]
+            want = "-- name: %s %s\n%s\n" % (name, q["cmd"], q["sql"])
+            if consts.get(cname) != want:
+                rep.violation("under configuration %s the SQL constant of %s in the emitted Go file is not the statement the compiler produced for the Go target"
+                              % (vn, name), dict(replay, emitted=consts.get(cname), expected=want))
+                break
+
+
 def run(tier, seed):
     rep = Report(PROP, tier, seed)
     ok, info = prep(PROP)
@@ -13,7 +66,10 @@ def run(tier, seed):
     rng = random.Random(seed)
     n = 700 if tier == "quick" else 20000
     cases = [gen_file(rng) for _ in range(n)]
+    accepted = []
     for c, r, v in run_files(rep, cases):
+        if r.get("ok"):
+            accepted.append((c, r))
         wf, known, holds, diff, holds17, _k17 = v
         rep.case((c["schema"], c["queries"]), nontrivial=True,
                  sample={"queries": c["queries"], "accepted": bool(r.get("ok"))} if len(rep.samples) < 4 else None)
@@ -35,6 +91,7 @@ def run(tier, seed):
             rep.violation("the embedded SQL / doc comment of a query is not the source statement modulo the documented rewrites", replay)
         elif diff and wf:
             rep.violation("correspondence corr:C04:parse_file broken (model and sqlc differ, code %d); the property holds on this input" % diff, replay, no_input=True)
+    end_to_end(rep, accepted, tier)
     if getattr(rep, "proof_broken", None) and not rep.violations:
         rep.violation("proof obligation no longer checks: " + rep.proof_broken, {"theorem_file": "coq/theories/Props/C04.v", "detail": info}, no_input=True)
     return rep.finish("proof", ob, dis, checker_cmd(PROP),
